@@ -487,6 +487,18 @@ def perturb_case(case, res):
                         res.violation(f"perturb|far from start accepted", f"{what} ({rate}) was joined", case, {"what": what, "rate": rate})
                     except Exception:
                         res.hits["perturbed piece rejected"] += 1
+            # a second piece whose sample rate differs so little that only a LONG piece shows it (>= 1 sample of drift over it)
+            for eps_ in (5e-6, -8e-6, 1e-4):
+                k = 100003
+                tail = big[k:]
+                res.transitions += 1
+                try:
+                    pb.concatenate([big[:k], type(tail).like(tail, sample_rate=tail.sample_rate * (1 + eps_))])
+                    res.violation("perturb|sample rates differing by a few 1e-6 joined", f"second piece of {len(tail)} samples with "
+                                  f"sample_rate x (1 + {eps_:g}) (a drift of {abs(eps_) * len(tail):.1f} samples over the piece) was joined "
+                                  f"({rate})", case, {"eps": eps_, "rate": rate})
+                except Exception:
+                    res.hits["perturbed piece rejected"] += 1
             ok = pb.concatenate([big[:100003], big[100003:250001], big[250001:]])
             if len(ok) != 300000:
                 res.violation("perturb|far from start valid rejected", "valid long split not rejoined", case, None)
